@@ -12,4 +12,18 @@ CHECKS = {
             "level_note": "Integer-time model (whole seconds); one IEEE double division modelled with an explicit error term; Cython via transliteration with overflow obligations. " + _TB,
             "design_ref": "DESIGN.md 2.2, 6 (C17)"},
 }
+CHECKS["C13"] = {"engine": "ksym", "technique": "differential bounded symbolic execution (ksym + z3, z3 FP theory for the float32 return) of each accelerated function vs its pure-Python fallback through the real wrapper methods",
+    "level_text": "Bounded symbolic equivalence: each wrapper (Scoreboard.idxToDate/dateToIdx/collectIntervals, Project.dateToIdx/idxToDate, WorkingHours.onShift/get_daily_hours) is run with _USE_CYTHON False and True on the same symbolic arguments in the same path; results must be equal or both raise; C-int overflow of the .pyx code is an obligation. The .pyx side is a transliteration regenerated from the current text and validated on a concrete grid against a fresh build in the same run. Whole-project equality follows by composition and is not re-decided.",
+    "level_note": "Same models as C17; WorkingHours with <= 2 intervals on each of 2 symbolic weekdays; scan tables <= 8 slots. " + _TB,
+    "design_ref": "DESIGN.md 2.2, 5.4, 6 (C13)"}
+_FSX = "Trusted base: the in-memory OS model fsx/model.py (real bytes, CPython TextIOWrapper), the engine stub (contract of run_scriptplan), z3 5.1.0; cleanup operations do not fail; every counterexample is replayed against the real `plan` entry point in a subprocess."
+CHECKS["C19"] = {"engine": "fsx", "technique": "symbolic environment/fault-schedule exploration (ksym decision tree over z3 variables) of the real plan.report body against a modelled OS",
+    "level_text": "Exhaustive bounded exploration of environment and fault assignments: input class x channel x format x flags x engine outcome x user-report sets x glob orders x <= k injected I/O faults; on every path the documented contract (exit code, single report on stdout, JSON shape and report_id = SHA-256 of the input bytes, auto report selected, diagnostics on stderr, channel equivalence) is judged by an oracle written from the documentation.",
+    "level_note": _FSX + " Real JSON/CSV bytes, click argument handling and the real engine are observed only in replay.",
+    "design_ref": "DESIGN.md 2.3, 6 (C19)"}
+CHECKS["C20"] = {"engine": "fsx", "technique": "symbolic fault-schedule exploration (ksym decision tree over z3 variables) of the real plan.report body against a modelled OS; footprint-disjointness argument for concurrency",
+    "level_text": "Exhaustive bounded exploration of all exit paths under <= k injected I/O faults: nothing the run created survives, nothing is created outside its own mkstemp/mkdtemp paths; two modelled runs with distinct temp-name seeds have disjoint write footprints and the second produces its solitary output (interleavings are covered by the disjointness argument, not enumerated).",
+    "level_note": _FSX + " Kernel-level races, signals and SIGKILL are outside the claim.",
+    "design_ref": "DESIGN.md 2.3, 6 (C20)"}
+ENGINES.append({"name": "fsx", "path": "/verif/fsx", "serves_properties": ["C19", "C20"], "kind_free_text": "in-memory OS model + ksym decision-tree exploration of environment/fault variables; the real body of scriptplan.cli.plan.report runs with rebound module globals; replay against the real CLI in a subprocess"})
 NOT_APPLICABLE = {}
